@@ -193,9 +193,11 @@ func (ctrlEncodeStream) Oracle(c Case, impl string) (bool, string, string) {
 	if err != nil {
 		return false, "cannot build request", c.Kind + "/harness"
 	}
-	br := req.NewBindResponse(gldap.WithResponseCode(0))
+	// the controls travel with whatever result the response carries (success, invalidCredentials, ...)
+	rcode := []int{0, 49, 53, 19, 32, 0}[int(crc32.ChecksumIEEE([]byte(c.Line)))%6]
+	br := req.NewBindResponse(gldap.WithResponseCode(rcode))
 	br.SetControls(real, real)
-	sd := req.NewSearchDoneResponse(gldap.WithResponseCode(0))
+	sd := req.NewSearchDoneResponse(gldap.WithResponseCode(rcode))
 	sd.SetControls(real)
 	for i, rb := range [][]byte{gldap.VerifResponseBytes(br), gldap.VerifResponseBytes(sd)} {
 		p, err := ber.DecodePacketErr(rb)
